@@ -6,7 +6,7 @@ import Iota.Gen.B1T6
 import Iota.Tie.Expect
 import Iota.Model.B1T6
 import Iota.Tie.B1T8Code
-import Iota.Tie.Base32Code
+import Iota.Tie.BV
 import Iota.Tie.B1T6Code
 
 namespace Iota.Tie.C14
